@@ -242,3 +242,117 @@ Proof.
     rewrite E, (xdot_map_affine (fun r => xdot (removelast r) x') (fun r => last r k0) xl m y).
     unfold matvec. rewrite map_map. change dot with xdot. change K with Qc. unfold k0. ring.
 Qed.
+
+(* ---------- lifting through flatten / unflatten ---------- *)
+Lemma fold_add_app a b : fold_right Nat.add 0 (a ++ b) = fold_right Nat.add 0 a + fold_right Nat.add 0 b.
+Proof. induction a as [|x a IH]; cbn; [reflexivity|]. rewrite IH. lia. Qed.
+Lemma struct_size_cons k s ss : struct_size (Node k (s :: ss)) = struct_size s + struct_size (Node k ss).
+Proof. unfold struct_size. cbn [flatten flat_map]. now rewrite map_app, fold_add_app. Qed.
+Lemma struct_size_nil k : struct_size (Node k []) = 0.
+Proof. reflexivity. Qed.
+Lemma vflatten_cons k c cs : vflatten (Node k (c :: cs)) = vflatten c ++ vflatten (Node k cs).
+Proof. unfold vflatten. cbn [flatten flat_map]. apply concat_app. Qed.
+Lemma firstn_add (A : Type) n m (l : list A) : firstn (n + m) l = firstn n l ++ firstn m (skipn n l).
+Proof. revert l. induction n as [|n IH]; intros [|a l]; cbn; try reflexivity; [now rewrite firstn_nil|]. now rewrite IH. Qed.
+
+Lemma skipn_add (A : Type) m n (l : list A) : skipn n (skipn m l) = skipn (m + n) l.
+Proof. revert l. induction m as [|m IH]; intros [|a l]; cbn; try reflexivity; [now rewrite skipn_nil|apply IH]. Qed.
+
+Lemma vflatten_length : forall s y, has_struct y s = true -> List.length (vflatten y) = struct_size s.
+Proof.
+  induction s as [sd|k ss IH] using pt_ind'; intros [d|k' cs] H; cbn [has_struct] in H; try discriminate.
+  - unfold leaf_ok in H. apply Nat.eqb_eq in H. unfold vflatten, struct_size. cbn. rewrite app_nil_r. lia.
+  - apply andb_true_iff in H as [_ H]. revert cs H.
+    induction IH as [|s0 ss Hs _ IHs]; intros [|c cs] H; try discriminate; [reflexivity|].
+    apply andb_true_iff in H as [H1 H2]. rewrite vflatten_cons, struct_size_cons, app_length, (Hs _ H1).
+    f_equal. exact (IHs cs H2).
+Qed.
+
+Lemma inner_unflatten : forall s v y, has_struct y s = true -> struct_size s <= List.length v ->
+  xinner (fst (unflatten s v)) y = xdot (firstn (struct_size s) v) (vflatten y) /\
+  snd (unflatten s v) = skipn (struct_size s) v.
+Proof.
+  induction s as [sd|k ss IH] using pt_ind'; intros v [d|k' cs] H Hv; cbn [has_struct] in H; try discriminate.
+  - cbn [unflatten fst snd]. unfold struct_size in *. cbn [flatten map fold_right] in *. rewrite Nat.add_0_r in *.
+    unfold vflatten. cbn [flatten concat]. rewrite app_nil_r. split; reflexivity.
+  - apply andb_true_iff in H as [_ H]. cbn [unflatten].
+    assert (Hl : forall v0 cs0,
+      (fix go (l : list xvalue) (l' : list struct) : bool :=
+         match l, l' with [] , [] => true | a :: r, b :: r' => has_struct a b && go r r' | _, _ => false end) cs0 ss = true ->
+      struct_size (Node k ss) <= List.length v0 ->
+      let p := (fix go (ss : list struct) (v : list K) : list xvalue * list K :=
+           match ss with
+           | [] => ([], v)
+           | s :: ss' => let '(c, r1) := unflatten s v in let '(cs, r2) := go ss' r1 in (c :: cs, r2)
+           end) ss v0 in
+      xinners (fst p) cs0 = xdot (firstn (struct_size (Node k ss)) v0) (vflatten (Node k' cs0)) /\
+      snd p = skipn (struct_size (Node k ss)) v0).
+    { clear v cs H Hv. induction IH as [|s0 ss Hs _ IHs]; intros v [|c cs] H Hv; cbn zeta; try discriminate.
+      - cbn. split; reflexivity.
+      - apply andb_true_iff in H as [H1 H2]. rewrite struct_size_cons in Hv |- *.
+        destruct (Hs v c H1 ltac:(lia)) as [E1 E2]. cbn zeta.
+        destruct (unflatten s0 v) as [c0 r1]. cbn [fst snd] in E1, E2. subst r1.
+        assert (Hv' : struct_size (Node k ss) <= List.length (skipn (struct_size s0) v)) by (rewrite skipn_length; lia).
+        destruct (IHs (skipn (struct_size s0) v) cs H2 Hv') as [E3 E4]. cbn zeta in E3, E4.
+        match goal with |- context [match ?G with pair _ _ => _ end] => destruct G as [cs1 r2] end.
+        cbn [fst snd] in *. subst r2. split.
+        + rewrite xinners_cons, E1, E3, vflatten_cons, firstn_add. symmetry. apply xdot_app.
+          rewrite firstn_length, (vflatten_length _ _ H1). lia.
+        + apply skipn_add. }
+    specialize (Hl v cs H Hv). cbn zeta in Hl.
+    match goal with |- context [match ?G with pair _ _ => _ end] => destruct G as [cs1 r] end.
+    cbn [fst snd] in *. rewrite xinner_node. exact Hl.
+Qed.
+
+Lemma xinner_comm x y : xinner x y = xinner y x.
+Proof. apply (inner_comm K k0 k1 Qcplus Qcmult Qcminus Qcopp Qcrt). Qed.
+Lemma xdot_comm u v : xdot u v = xdot v u.
+Proof. apply (dotl_comm K k0 k1 Qcplus Qcmult Qcminus Qcopp Qcrt). Qed.
+
+Definition matrix_ok (si so : struct) (m : matrix) : Prop :=
+  rows_ok (struct_size si) m /\ List.length m = struct_size so.
+
+(* a leaf acting through the matrix m and a leaf acting through transpose_m m are adjoint *)
+Theorem apply_matrix_adjoint m si so x y fx gy : matrix_ok si so m ->
+  apply_matrix m si so x = Some fx -> apply_matrix (transpose_m m (struct_size si)) so si y = Some gy ->
+  xinner fx y = xinner x gy.
+Proof.
+  intros [Hr Hl] H1 H2. unfold apply_matrix in H1, H2.
+  destruct (has_struct x si) eqn:Hx; [|discriminate]. destruct (has_struct y so) eqn:Hy; [|discriminate].
+  injection H1 as <-. injection H2 as <-.
+  pose proof (vflatten_length _ _ Hx) as Lx. pose proof (vflatten_length _ _ Hy) as Ly.
+  destruct (inner_unflatten so (matvec m (vflatten x)) y Hy) as [E1 _]; [rewrite matvec_length; lia|].
+  destruct (inner_unflatten si (matvec (transpose_m m (struct_size si)) (vflatten y)) x Hx) as [E2 _];
+    [rewrite matvec_length, transpose_m_length; lia|].
+  rewrite E1, (xinner_comm x), E2.
+  rewrite !firstn_all2 by (rewrite matvec_length, ?transpose_m_length; lia).
+  rewrite (xdot_comm (matvec (transpose_m m (struct_size si)) (vflatten y))).
+  apply matvec_transpose_adjoint; assumption.
+Qed.
+
+(* the lazy transposes that transpose() creates around a primitive acting through a table matrix:
+   the model gives them transpose_m of that matrix, which is the adjoint *)
+Definition wrap_key (j : N) (p : par) : N := match p with PKey k => k | _ => (2 * j)%N end.
+Theorem exec_fresh_lazy_transpose_adjoint tb w j c si so p m :
+  (w = WTranspose \/ w = WReshapeT \/ w = WObsT) ->
+  lookup tb (wrap_key j p) = Some m ->
+  matrix_ok (in_struct (Prim j c si so p : xop)) (out_struct (Prim j c si so p : xop)) m ->
+  (forall x, leafsem tb (Prim j c si so p) x =
+             apply_matrix m (in_struct (Prim j c si so p : xop)) (out_struct (Prim j c si so p : xop)) x) ->
+  xadjoint (leafsem tb (Prim j c si so p)) (leafsem tb (Wrap fresh w (Prim j c si so p))).
+Proof.
+  intros Hw Hk Hm Hp x y fx gy H1 H2. rewrite Hp in H1.
+  assert (E : leafsem tb (Wrap fresh w (Prim j c si so p)) y =
+              apply_matrix (transpose_m m (struct_size (in_struct (Prim j c si so p : xop))))
+                (out_struct (Prim j c si so p : xop)) (in_struct (Prim j c si so p : xop)) y).
+  { unfold leafsem at 1. unfold wrap_key in Hk.
+    assert (Ei : in_struct (Wrap fresh w (Prim j c si so p) : xop) = out_struct (Prim j c si so p : xop))
+      by (unfold in_struct, out_struct; cbn [structs]; destruct (square_cls c); reflexivity).
+    assert (Eo : out_struct (Wrap fresh w (Prim j c si so p) : xop) = in_struct (Prim j c si so p : xop))
+      by (unfold in_struct, out_struct; cbn [structs]; destruct (square_cls c); reflexivity).
+    rewrite Ei, Eo.
+    destruct (has_struct y (out_struct (Prim j c si so p : xop))) eqn:Hy; cbn [negb]; [|unfold apply_matrix; rewrite Hy; reflexivity].
+    change (fresh =? 0)%N with true. cbv iota.
+    destruct Hw as [->|[->| ->]]; rewrite Hk; reflexivity. }
+  rewrite E in H2. eapply apply_matrix_adjoint; eauto.
+Qed.
